@@ -195,6 +195,8 @@ def check(ctx):
     fix_guards(ctx)
     fix_structure(ctx)
     consumers(ctx)
+    from ..rules import indexspace
+    indexspace.check_index_spaces(ctx, [f'{GP}.get_graph', f'{GP}._update_comb_fixed_mask'])
     invalidate.check_invalidation(ctx, GP)
     invalidate.check_unconditional_recompute(ctx, f'{GP}._update_comb_fixed_mask', '_comb_fixed_mask')
     roots = [ctx.fn(f'{GP}.{r}') for r in ('fix_des_var', 'free_des_var', 'get_graph')]
